@@ -7,6 +7,7 @@ import (
 	"go/types"
 	"math/big"
 	"strings"
+	"time"
 
 	"golang.org/x/tools/go/ssa"
 )
@@ -231,6 +232,8 @@ type Engine struct {
 	steps      int
 	paths      int
 	nextCell   int
+	constMaps  map[*Cell][]mapEntry
+	started    time.Time
 	globals    map[*ssa.Global]*Cell
 	initVals   map[*ssa.Global]Val
 	initDone   map[*ssa.Package]bool
@@ -247,9 +250,13 @@ func NewEngine(p *Program) *Engine {
 	if p.Arch == "386" || p.Arch == "arm" {
 		wb = 32
 	}
-	return &Engine{P: p, A: newAtoms(), WordBits: wb, MaxSteps: 3_000_000, MaxPaths: 5000, MaxDepth: 12,
-		globals: map[*ssa.Global]*Cell{}, initVals: map[*ssa.Global]Val{}, initDone: map[*ssa.Package]bool{}, opaqueMem: map[string]*Cell{}, constCells: map[*Cell]Val{}}
+	return &Engine{started: time.Now(), P: p, A: newAtoms(), WordBits: wb, MaxSteps: 3_000_000, MaxPaths: 5000, MaxDepth: 12,
+		globals: map[*ssa.Global]*Cell{}, initVals: map[*ssa.Global]Val{}, initDone: map[*ssa.Package]bool{}, opaqueMem: map[string]*Cell{}, constCells: map[*Cell]Val{}, constMaps: map[*Cell][]mapEntry{}}
 }
+
+// engineTimeBudget bounds the wall-clock time one engine may spend; on the
+// current tree every run takes well under two seconds.
+const engineTimeBudget = 25 * time.Second
 
 func (e *Engine) newCell(name string, t types.Type) *Cell {
 	e.nextCell++
@@ -703,7 +710,18 @@ func (e *Engine) exec(st *State, fr *frame, b, pred *ssa.BasicBlock, idx, depth 
 			if e.steps > e.MaxSteps {
 				return e.stuck(st, "step budget exceeded", b.Instrs[i].Pos())
 			}
+			if e.steps&63 == 0 && time.Since(e.started) > engineTimeBudget {
+				return e.stuck(st, "time budget of the abstract interpretation exceeded: the exploration of this code does not stay within bounds", b.Instrs[i].Pos())
+			}
+			if e.steps&255 == 0 && resourceExceeded.Load() {
+				return e.stuck(st, "memory budget of the checker exceeded: the exploration of this code does not stay within bounds", b.Instrs[i].Pos())
+			}
 			in := b.Instrs[i]
+			if lk, ok := in.(*ssa.Lookup); ok {
+				if outs, handled := e.forkLookup(st, fr, lk, b, pred, i, depth); handled {
+					return outs
+				}
+			}
 			switch in := in.(type) {
 			case *ssa.DebugRef:
 			case *ssa.Phi:
@@ -1219,7 +1237,7 @@ func (e *Engine) evalValue(st *State, fr *frame, in ssa.Value) (Val, string) {
 		}
 		if m, ok := x.(*MapVal); ok {
 			// last matching update with an identical key
-			ents := st.maps[m.Cell]
+			ents := e.mapEntries(st, m)
 			for i := len(ents) - 1; i >= 0; i-- {
 				if valKey(ents[i].K) == valKey(k) {
 					if in.CommaOk {
@@ -1972,4 +1990,99 @@ func bvIsInputBits(b *BV) bool {
 		}
 	}
 	return true
+}
+
+// mapEntries returns the recorded updates of a map, including those made
+// while the package initial state was evaluated.
+func (e *Engine) mapEntries(st *State, m *MapVal) []mapEntry {
+	if ents, ok := st.maps[m.Cell]; ok && len(ents) > 0 {
+		return ents
+	}
+	return e.constMaps[m.Cell]
+}
+
+// forkLookup: a look-up with a symbolic key in a small map of constant keys
+// is a case split over the entries (key == k1 → v1, …, none → zero value).
+func (e *Engine) forkLookup(st *State, fr *frame, in *ssa.Lookup, b, pred *ssa.BasicBlock, i, depth int) ([]Outcome, bool) {
+	m, ok := e.val(st, fr, in.X).(*MapVal)
+	if !ok {
+		return nil, false
+	}
+	ents := e.mapEntries(st, m)
+	if len(ents) == 0 || len(ents) > 16 {
+		return nil, false
+	}
+	key := e.val(st, fr, in.Index)
+	// later updates of the same key win
+	var uniq []mapEntry
+	seen := map[string]bool{}
+	for k := len(ents) - 1; k >= 0; k-- {
+		kk := valKey(ents[k].K)
+		if kk == valKey(key) {
+			return nil, false // decided syntactically by the ordinary path
+		}
+		if !constKey(ents[k].K) {
+			return nil, false
+		}
+		if !seen[kk] {
+			seen[kk] = true
+			uniq = append(uniq, ents[k])
+		}
+	}
+	mt, _ := in.X.Type().Underlying().(*types.Map)
+	if mt == nil {
+		return nil, false
+	}
+	result := func(v Val, found bool) Val {
+		if in.CommaOk {
+			return Tuple{v, boolConst(found)}
+		}
+		return v
+	}
+	var outs []Outcome
+	rem, remFr := st, fr
+	e.paths += len(uniq)
+	if e.paths > e.MaxPaths {
+		return e.stuck(st, "path budget exceeded", in.Pos()), true
+	}
+	for _, en := range uniq {
+		cv, why := e.compare(token.EQL, key, en.K, mt.Key())
+		c, _ := cv.(*BoolVal)
+		if why != "" || c == nil {
+			return nil, false
+		}
+		if c.Const != nil {
+			if *c.Const {
+				remFr.env[in] = result(en.V, true)
+				return append(outs, e.exec(rem, remFr, b, pred, i+1, depth)...), true
+			}
+			continue
+		}
+		stI, frI := rem.clone(), remFr.clone()
+		stI.conds = append(stI.conds, c)
+		stI.learn(c)
+		frI.env[in] = result(en.V, true)
+		outs = append(outs, e.exec(stI, frI, b, pred, i+1, depth)...)
+		rem.conds = append(rem.conds, c.Not())
+	}
+	remFr.env[in] = result(e.zeroVal(mt.Elem()), false)
+	return append(outs, e.exec(rem, remFr, b, pred, i+1, depth)...), true
+}
+
+func constKey(v Val) bool {
+	switch x := v.(type) {
+	case *Form:
+		_, ok := x.Const()
+		return ok
+	case *Agg:
+		for _, el := range x.Elems {
+			if !constKey(el) {
+				return false
+			}
+		}
+		return true
+	case *StrVal:
+		return true
+	}
+	return false
 }
